@@ -83,10 +83,52 @@ func c12Run(c *h.Ctx) {
 			cs.Payload = [][]byte{b[:len(b)/2], b[len(b)/2:]}
 		}
 		sr := rand.New(rand.NewSource(r.Int63()))
+		br := rand.New(rand.NewSource(r.Int63()))
+		boundary := r.Intn(3) == 0
 		if !c.Case(id) {
 			continue
 		}
+		if boundary {
+			c12Boundary(cs, br)
+			c.Count("length_form_boundary_cases", 1)
+		}
 		c12One(c, id, cs, sr)
+	}
+}
+
+// c12Boundary resizes the payload so that the outer TLV's value length lands next to a
+// length-form boundary (252/253, rarely 65535/65536): signers whose signature is shorter than
+// their estimate then make the final length field shrink to a shorter form.
+func c12Boundary(cs *pkt.Case, r *rand.Rand) {
+	target := 249 + r.Intn(12)
+	if r.Intn(10) == 0 {
+		target = 65530 + r.Intn(14)
+	}
+	for it := 0; it < 3; it++ {
+		var built *pkt.Built
+		var err error
+		if pi := h.Guard(func() { built, err = cs.Build() }); pi != nil || err != nil || built == nil {
+			return
+		}
+		total := len(built.Bytes)
+		hdr := 2
+		if total-2 >= 253 {
+			hdr = 4
+		}
+		if total-4 >= 65536 {
+			hdr = 6
+		}
+		delta := target - (total - hdr)
+		if delta == 0 {
+			return
+		}
+		nl := len(cs.PayloadBytes()) + delta
+		if nl < 0 {
+			return
+		}
+		b := make([]byte, nl)
+		r.Read(b)
+		cs.Payload = [][]byte{b[:nl/2], b[nl/2:]}
 	}
 }
 
